@@ -63,9 +63,18 @@ pub fn drive(args: &HashMap<String, String>) {
         progs.push(p);
     }
     // 1. ask the checker
-    let jobs: Vec<Value> = progs.iter().map(|p| json!({"op": "usecheck", "text": p.render("*standard-cl-21*")})).collect();
+    let jobs: Vec<Value> = progs.iter().map(|p| json!({"op": "usecheck", "text": p.render("*standard-cl-21*"), "events": true})).collect();
     let cfg = PoolCfg { batch: 1, timeout: Duration::from_secs(20), ..PoolCfg::default() };
     let reports = run_jobs(jobs, &cfg);
+    if let Some(st) = args.get("scope-trace") {
+        let mut sf = std::io::BufWriter::new(std::fs::File::create(st).expect("scope trace"));
+        for (p, r) in progs.iter().zip(reports.iter()) {
+            if let Some(mut rec) = crate::util::scope_record(&p.var_names(), r) {
+                rec["source"] = json!(p.render("*standard-cl-21*"));
+                writeln!(sf, "{}", rec).unwrap();
+            }
+        }
+    }
     // 2. for every reported parameter: pairs of argument trees differing only there
     let mut cjobs = vec![];
     let mut owner = vec![];
